@@ -557,6 +557,11 @@ def scen_time(rng, n):
     # two trigger threads and a slow consumer: a second tick arrives while the first tick's item is still being handed on
     out.append(("(conc C16-%d (pipe (sub (sample (tsrc 0 (3 (n 1)) (20 (n 2)) (30 (n 3))) (merge (interval 10) (interval 11))) (react (0 (sleep 5)) (1 (sleep 5)) (2 (sleep 5)))) (unsub-after 0 80)))" % i, ("subseq", [1, 2, 3]))); i += 1
     out.append(("(conc C16-%d (pipe (sub (debounce 10 (tsrc 0 (3 (n 1)) (3 (n 2)) (25 (n 3)) (3 (n 4)) (30 c))) (react (0 (sleep 12)) (1 (sleep 12))))))" % i, ("subseq", [1, 2, 3, 4]))); i += 1
+    # the SAME debounce / sample / delay observable subscribed again after an earlier subscription ended with an item
+    # still pending; the later subscription's first gap exceeds the period: it may only deliver its own source's items
+    for op in ("(debounce 10 %s)", "(sample %s (interval 10))", "(delay 4 %s)", "(timeout 30 %s)"):
+        x = op % "(tsrc 0 (15 (n 1)) (3 (n 2)) (3 (n 3)) (40 c))"
+        out.append(("(conc C16-%d (pipe (def x %s) (sub (ref x) (react)) (unsub-after 0 23) (settle 30) (sub (ref x) (react)) (unsub-after 1 120)))" % (i, x), ("subseq2", [1, 2, 3]))); i += 1
     return out
 
 
@@ -623,6 +628,17 @@ def oracle_time(payload, info):
         want = lean_expected("delay %d %s c:1" % (dd, " ".join("%d:%d:%d" % (gp, k + 1, handling[k]) for k, gp in enumerate(gaps))))
         if got != want:
             return "delay(%d) over gaps %s (handling %s) delivered %s, expected %s" % (dd, gaps, handling, got, want)
+    elif kind == "subseq2":
+        src = ["n%d" % v for v in info[1]]
+        for u in (0, 1):
+            items = [e[1] for e in user_events(d["recs"], u) if e[1][0] == "n"]
+            j = 0
+            for x in items:
+                while j < len(src) and src[j] != x:
+                    j += 1
+                if j == len(src):
+                    return "subscription %d of the same observable delivered %s which is not a subsequence of ITS source's items (an item of another subscription, or a duplicate)" % (u, items)
+                j += 1
     elif kind == "subseq":
         src = ["n%d" % v for v in info[1]]
         items = [g[0] for g in got if g[0][0] == "n"]
